@@ -11,3 +11,5 @@ def find(ctx, oblig, diag):
             res["source"] = "reference-presigned URL with the signing time placed relative to the real clock"
             return res
     return res
+
+standing = find
